@@ -19,7 +19,7 @@ RULE = (
     "all ordered pairs of grids {mixed 3..6-gon patch, cube, tetrahedron (n_node = n_face), single triangle (n_node = n_edge, one face), pyramid whose face centres "
     "come from the source and are displaced from the corner mean} x data on {nodes, edges, faces} x remap_to {nodes, edge centers, face centers} x coord_type {spherical, "
     "cartesian} x data {every unit impulse, identity, ones, generic; leading dims (), (2), (2,3)}; IDW additionally x k in {2, 3, n} x power in {1, 2, 5}. "
-    "non-trivial = pair of different grids; distinct = (source, destination, kind, remap_to, coord_type, k, power)"
+    "plus histories: all 6 orders of remapping a node-, an edge- and a face-centred variable between the same two Grid objects (NN and IDW). non-trivial = pair of different grids or a history; distinct = (source, destination, kind, remap_to, coord_type, k, power)"
 )
 ASSUMPTIONS = [
     "element positions are those the grids report (C04); nearest = smallest great-circle distance, ties (within 1e-9) accepted in any order",
@@ -217,6 +217,50 @@ def run_case(case):
                         except Exception as ee:
                             bad("c12:idw:raises:%s" % type(ee).__name__, "lead=%s: %r" % (lead, ee), ex)
                     res["outcomes"].append(digest(np.round(W, 9)))
+    # ---------------- histories: several variables remapped between the SAME two grid objects ----------------
+    if "only" not in case or case["only"].get("shared"):
+        for remap_to in DEST:
+            for coord in ("spherical", "cartesian"):
+                for method in ("nn", "idw"):
+                    for order in itertools.permutations(("n_node", "n_edge", "n_face")):
+                        foc = {"shared": True, "remap_to": remap_to, "coord": coord, "method": method, "order": list(order)}
+                        if "only" in case and foc != case["only"]:
+                            continue
+                        pool.fresh()
+                        gs_ref, _ = _grid(case["src"])
+                        gd_ref, _ = _grid(case["dst"])
+                        D = _pos(gd_ref, remap_to)
+                        gs, _ = _grid(case["src"])
+                        gd, _ = _grid(case["dst"])
+                        for elem in order:
+                            S = _pos(gs_ref, KIND[elem])
+                            dist = sph.angle(D[:, None, :], S[None, :, :])
+                            n_src = len(S)
+                            if method == "idw" and (n_src < 2 or 2 > gs_ref.n_node):
+                                continue
+                            ident = np.arange(n_src, dtype=float)
+                            res["evaluations"] += 1
+                            res["transitions"] += 1
+                            try:
+                                if method == "nn":
+                                    o = np.asarray(build.uxda(gs, ident, elem).remap.nearest_neighbor(gd, remap_to=remap_to, coord_type=coord).values, dtype=float)
+                                    ch = np.rint(o).astype(int)
+                                    ok = o.shape == (len(D),) and np.all((ch >= 0) & (ch < n_src)) and np.all(dist[np.arange(len(D)), np.clip(ch, 0, n_src - 1)] <= dist.min(axis=1) + 1e-9)
+                                else:
+                                    e0 = np.zeros(n_src)
+                                    e0[0] = 1.0
+                                    o = np.asarray(build.uxda(gs, e0, elem).remap.inverse_distance_weighted(gd, remap_to=remap_to, coord_type=coord, k=2).values, dtype=float)
+                                    d2 = np.sort(dist, axis=1)[:, 1]
+                                    ok = o.shape == (len(D),) and not np.any((o > 1e-15) & (dist[:, 0] > d2 + 1e-9))
+                            except Exception as e:
+                                ok = False
+                                o = repr(e)
+                            if not ok:
+                                V.append({"oracle": "remap", "sig": "c12:history:%s:wrong-after-other-variable" % method, "msg": "%s -> %s (same two Grid objects), variables remapped in the order %s to %s (%s): the %s variable is wrong after the earlier remaps: %s" % (case["src"], case["dst"], list(order), remap_to, coord, elem, str(o)[:200]), "focus": dict(case, only=foc)})
+                                break
+                        key = digest((case["src"], case["dst"], "shared", remap_to, coord, method, order))
+                        res["states"].append(key)
+                        res["nontrivial"].append(key)
     res["axes"] = {"pair": {"%s->%s" % (case["src"], case["dst"]): res["evaluations"]}}
     res["sample"] = dict(case)
     return res
